@@ -43,7 +43,7 @@ def gen_cases(tier, seed):
         case["mode"] = "enumerate"
         cases.append(case)
         k += 1
-    nreg = 40 if tier == "quick" else 1500
+    nreg = 60 if tier == "quick" else 1500
     for i in range(nreg):
         cfgd = C.sample(rng, {"step_solver": C.STEP_SOLVER, "control": C.CONTROL, "newton": C.NEWTON,
                               "linear": ["LU", "GMRES"], "penalty": ["DualNorm", "Constant"]})
@@ -53,6 +53,12 @@ def gen_cases(tier, seed):
         case["mode"] = "region"
         case["radius"] = float(rng.uniform(0.2, 2.5))
         case["shape"] = str(rng.choice(["ball", "halfspace"]))
+        # a third of the region runs display every row: reporting evaluates the problem at rejected points
+        case["display"] = bool(rng.random() < 0.35)
+        if case["display"]:
+            cfgd["lamb_init"] = float(10.0 ** rng.uniform(-3, 0))
+            if rng.random() < 0.6:
+                case["components"] = ["obj"]   # only the objective value fails (finite derivatives)
         cases.append(case)
         k += 1
     return cases
@@ -69,7 +75,7 @@ def user_x(solver, spec, xi):
     return x if sc is None else np.ldexp(x, -np.asarray(sc.var_weights))
 
 
-def judge(case, p, out, fired_evals, fired_lin, pred=None):
+def judge(case, p, out, fired_evals, fired_lin, pred=None, check_discard=True):
     """Checks (a)-(e) of DESIGN C07 for one faulted run; returns violations and stats."""
     viol = []
     key = work.cfg_key(case["cfg"], "step_solver", "control", "linear", "newton")
@@ -121,7 +127,7 @@ def judge(case, p, out, fired_evals, fired_lin, pred=None):
     for f in fired_lin:
         if f[2] is not None and f[2] >= 0:
             trials_hit.add(f[2])
-    for i in sorted(trials_hit):
+    for i in sorted(trials_hit if check_discard else []):
         if i >= len(T):
             continue
         t = T[i]
@@ -188,10 +194,20 @@ def run_case(case):
             a = rng.normal(size=p0.spec.n)
             a /= np.linalg.norm(a)
             pred = lambda x, x0=x0, r=rad, a=a: float(a @ (x - x0)) > r  # noqa: E731
-        fault = mon.Fault(pred=pred, components=["obj", "obj_grad", "cons", "cons_jac"])
+        fault = mon.Fault(pred=pred, components=case.get("components", ["obj", "obj_grad", "cons", "cons_jac"]))
         p = work.prepare(case, fault=fault, record_sites=False, keep_args=False)
-        out = mon.run_solve(p.rec, p.params, p.x0, p.y0, clock=quiet_clock())
-        viol, st = judge(case, p, out, fault.fired, [], pred=pred)
+        if case.get("display"):
+            # every row displayed: evaluations made for reporting may hit the failing region; those are not
+            # step failures, so clause (d) is not applied -- outcome, finiteness and "no iterate inside the
+            # failing region" are
+            p.params.display_interval = 0.0
+            out = mon.run_solve(p.rec, p.params, p.x0, p.y0, clock=mon.VirtualClock(display_bits=[1], display_interval=0.0))
+            viol, st = judge(case, p, out, fault.fired, [], pred=pred, check_discard=False)
+            bump("region_runs_with_display")
+            bump("region_display_faults_fired", len(fault.fired))
+        else:
+            out = mon.run_solve(p.rec, p.params, p.x0, p.y0, clock=quiet_clock())
+            viol, st = judge(case, p, out, fault.fired, [], pred=pred)
         res["viol"] = viol[:3]
         bump("region_runs")
         bump("region_faults_fired", len(fault.fired))
@@ -276,7 +292,8 @@ def finalize(agg, tier):
         "floors": {"base_runs": 30, "positions_enumerated": 2000, "recoveries": 1000, "positions_hit_factor": 100,
                    "positions_hit_solve": 100, "positions_hit_lag_hess": 100, "positions_hit_cons": 100,
                    "region_faults_fired": 100, "recoveries_Standard": 50, "recoveries_Extended": 50,
-                   "recoveries_Symmetric": 50, "recoveries_Asymmetric": 50, "initial_point_errors": 30},
+                   "recoveries_Symmetric": 50, "recoveries_Asymmetric": 50, "initial_point_errors": 30,
+                   "region_display_faults_fired": 30},
         "exhaustive": c.get("positions_dropped_by_cap", 0) == 0,
         "extra": {"exhaustive_per_base_run": "%d of %d base runs enumerated completely"
                                              % (c.get("base_runs_exhaustive", 0), c.get("base_runs", 0))},
